@@ -2,6 +2,8 @@
 lets the per-batch child generators created inside run_worker be observed as well.
 
 Recording never changes the stream: every overridden method delegates to the real implementation."""
+import copy
+
 import numpy as np
 
 
@@ -101,6 +103,7 @@ class RecordingPool:
         self.map_calls = []
         self.child_logs = []
         self.child_states = []     # (index of the map call, initial state of the generator handed to each task)
+        self.child_state_dicts = []
 
     def map(self, func, tasks, callback=None):
         tasks = list(tasks)
@@ -112,6 +115,7 @@ class RecordingPool:
                 g = RecordingGenerator(t[-1].bit_generator)
                 gens.append(g)
                 self.child_states.append((len(self.map_calls), repr(t[-1].bit_generator.state)))
+                self.child_state_dicts.append((len(self.map_calls), copy.deepcopy(t[-1].bit_generator.state)))
                 t = t[:-1] + (g,)
             wrapped.append(t)
         idx = list(range(len(wrapped)))
@@ -142,3 +146,27 @@ def _task_size(t):
         return len(s)
     except TypeError:
         return None
+
+
+def overlapping_streams(state_dicts, window=6000, probe=8):
+    """Pairs (i, j) of initial bit-generator states whose output streams overlap within `window` raw draws (one is a
+    shifted copy of the other).  Independent streams do so with probability ~ 0."""
+    raws = []
+    for st_ in state_dicts:
+        try:
+            bg = getattr(np.random, st_["bit_generator"])()
+            bg.state = copy.deepcopy(st_)
+            raws.append(np.asarray(bg.random_raw(window + probe), dtype=np.uint64))
+        except Exception:
+            raws.append(None)
+    hits = []
+    for i, a in enumerate(raws):
+        for j, b in enumerate(raws):
+            if i == j or a is None or b is None:
+                continue
+            # does the beginning of stream j occur inside stream i?
+            for pos in np.where(a[:window] == b[0])[0]:
+                if np.array_equal(a[pos:pos + probe], b[:probe]):
+                    hits.append((i, j, int(pos)))
+                    break
+    return hits
